@@ -111,7 +111,10 @@ def comparators(P, R, rule='C19.ARITH.1'):
             for ex in rules.event_exprs(s.ev):
                 for x in walk(ex):
                     if x.get('k') == 'callref' and x.get('callee') in ('strcmp', 'strcasecmp', 'strncmp', 'strncasecmp', 'strcoll'):
-                        used.setdefault(x['callee'], []).append((f, s))
+                        # names: the stock comparators' keys, and `name` members compared elsewhere.  A comparator of a
+                        # structured text of its own (a "<type>:<argument>" destination, say) is not a name comparator
+                        if f.unit == UNIT or any(isinstance(y, dict) and y.get('k') == 'mem' and y.get('field') == 'name' for a in x.get('args', []) for y in walk(a)):
+                            used.setdefault(x['callee'], []).append((f, s))
     if used:
         summary = '; '.join('%s: %s' % (k, ', '.join(sorted({f.name for f, _ in lst}))) for k, lst in sorted(used.items()))
         for k, lst in sorted(used.items()):
